@@ -88,4 +88,15 @@ PROPS = {
                  "scripted MessageSender + simnet host, synctest quiescence"],
         shards={"quick": 8, "thorough": 16},
     ),
+    "C02": dict(
+        pkg=".", test="TestVerifC02", model="C01", verdict="C02v", level="proof",
+        rule="a case is an honest network of 1-60 peers (thorough up to 400) whose knowledge is derived from the peers' "
+             "real SHA-256 identifiers: k-bucket complete (all of every non-full bucket, K random members of every full "
+             "one) or full knowledge; random seed routing table, (K, alpha, beta), four arrival-order policies, run to "
+             "termination; compared with the model step by step, and the convergence claims (nearest first / exactly the "
+             "K nearest) are evaluated on the implementation's result; non-trivial = >=4 peers; distinct = distinct case text",
+        trusted=["kbucket CommonPrefixLen / ConvertPeerID (bucket structure of the generated networks)",
+                 "scripted MessageSender + simnet host, synctest quiescence"],
+        shards={"quick": 8, "thorough": 16},
+    ),
 }
